@@ -5,6 +5,7 @@ import re
 from typing import Any
 
 from .. import Params, Parseable
+from ..exceptions import NotParseable
 from ..primitives import String, QuotedString
 
 __all__ = ['AString']
@@ -43,6 +44,9 @@ class AString(Parseable[bytes]):
         start = cls._whitespace_length(buf)
         match = cls._pattern.match(buf, start)
         if match:
+            if String._check_too_big(params, len(match.group(0))):
+                # the limit of a literal, however the string is spelled
+                raise NotParseable(buf, b'TOOBIG')
             buf = buf[match.end(0):]
             return cls(match.group(0), match.group(0)), buf
         string, buf = String.parse(buf, params)
